@@ -41,7 +41,7 @@ void checkQ(Case& c, Q& q, const Model& m, Kind kind, bool tracked) {
 }
 
 template <typename T, typename MCmp, typename Q, Kind KIND>
-void pqT(Case& c, bool rangeInit, bool removeOnEmpty, unsigned keyRange, unsigned nops) {
+void pqT(Case& c, bool rangeInit, unsigned keyRange, unsigned nops) {
   constexpr bool tracked = ElemName<T>::tracked;
   constexpr bool isSet   = KIND == TSSET;
   typedef typename std::conditional<isSet, std::set<int, MCmp>, std::multiset<int, MCmp>>::type Model;
@@ -49,17 +49,24 @@ void pqT(Case& c, bool rangeInit, bool removeOnEmpty, unsigned keyRange, unsigne
   Model m;
   {
     std::unique_ptr<Q> qp;
-    if (rangeInit) {
-      unsigned n = (unsigned)rng.below(12);
+    // range construction from 0..~200 elements: few distinct values, ascending, descending or random input
+    auto rangeBuild = [&](Model& nm) {
+      unsigned n = (unsigned)rng.below(rng.pick({4u, 17u, 40u, 201u}));
+      unsigned pattern = (unsigned)rng.below(4), kr = 1 + (unsigned)rng.below(6);
       std::vector<T> init;
+      nm.clear();
       for (unsigned i = 0; i < n; ++i) {
-        int v = (int)rng.below(keyRange);
+        int v = pattern == 0 ? (int)rng.below(kr) : pattern == 1 ? (int)i / 2 : pattern == 2 ? (int)(n - i) / 2
+                                                                                                : (int)rng.below(keyRange);
         init.emplace_back(v);
-        m.insert(v);
+        nm.insert(v);
       }
       c.op("range-construct", n);
-      qp.reset(new Q(init.begin(), init.end()));
-    } else
+      return new Q(init.begin(), init.end());
+    };
+    if (rangeInit)
+      qp.reset(rangeBuild(m));
+    else
       qp.reset(new Q());
     checkQ(c, *qp, m, KIND, tracked);
     unsigned grow = 60;
@@ -78,7 +85,7 @@ void pqT(Case& c, bool rangeInit, bool removeOnEmpty, unsigned keyRange, unsigne
         c.op("find", v);
         T key(v);
         c.eq("result-found", cq.find(key), m.count(v) != 0);
-      } else if (x < 24 && (removeOnEmpty || !m.empty())) {
+      } else if (x < 24) {
         c.op(m.empty() ? "remove-on-empty" : "remove", v);
         size_t had = m.count(v);
         bool r;
@@ -141,7 +148,7 @@ void pqT(Case& c, bool rangeInit, bool removeOnEmpty, unsigned keyRange, unsigne
           }
         }
         m.insert(v);
-      } else if (x < 97) {
+      } else if (x < 94) {
         c.op("pop");
         int exp = *m.begin();
         int got;
@@ -152,18 +159,47 @@ void pqT(Case& c, bool rangeInit, bool removeOnEmpty, unsigned keyRange, unsigne
         c.eq("result-value", got, exp);
         m.erase(m.begin());
       } else {
-        if constexpr (KIND != TSSET) {
-          size_t n = rng.below(64);
-          c.op("reserve", (long)n);
-          q.reserve(n);
+        switch (rng.below(4)) {
+        case 0:
+          if constexpr (KIND != TSSET) {
+            size_t n = rng.below(rng.below(2) ? 64 : 600);
+            c.op("reserve", (long)n);
+            q.reserve(n);
+          }
+          break;
+        case 1:
+          if constexpr (KIND == MINHEAP) {
+            c.op("copy-construct");
+            std::unique_ptr<Q> np(new Q(cq));
+            checkQ(c, *np, m, KIND, false);
+            c.lifetimesOk(tracked ? 2 * (long)m.size() : -1);
+            if (!c.bad)
+              qp = std::move(np);
+          }
+          break;
+        case 2: {
+          // a freshly range-constructed queue replaces the current one
+          Model nm;
+          std::unique_ptr<Q> np(rangeBuild(nm));
+          m.swap(nm);
+          qp = std::move(np);
+          break;
         }
-        if constexpr (KIND == MINHEAP) {
-          c.op("copy-construct");
-          std::unique_ptr<Q> np(new Q(cq));
-          checkQ(c, *np, m, KIND, false);
-          c.lifetimesOk(tracked ? 2 * (long)m.size() : -1);
-          if (!c.bad)
-            qp = std::move(np);
+        default: {
+          // pop everything: the complete order
+          c.op("drain", (long)m.size());
+          while (!m.empty() && !c.bad) {
+            int got;
+            {
+              T t = qp->pop();
+              got = val(t);
+            }
+            c.eq("result-value", got, *m.begin());
+            m.erase(m.begin());
+            c.eq("size", cq.size(), m.size());
+          }
+          break;
+        }
         }
       }
       checkQ(c, *qp, m, KIND, tracked);
@@ -174,39 +210,37 @@ void pqT(Case& c, bool rangeInit, bool removeOnEmpty, unsigned keyRange, unsigne
 }
 
 template <typename T, typename Cmp, typename MCmp>
-void pqKind(Case& c, Kind kind, bool rangeInit, bool roe, unsigned keyRange, unsigned nops) {
+void pqKind(Case& c, Kind kind, bool rangeInit, unsigned keyRange, unsigned nops) {
   switch (kind) {
-  case MINHEAP: return pqT<T, MCmp, galois::MinHeap<T, Cmp>, MINHEAP>(c, rangeInit, roe, keyRange, nops);
-  case TSMINHEAP: return pqT<T, MCmp, galois::ThreadSafeMinHeap<T, Cmp>, TSMINHEAP>(c, rangeInit, roe, keyRange, nops);
-  default: return pqT<T, MCmp, galois::ThreadSafeOrderedSet<T, Cmp>, TSSET>(c, rangeInit, roe, keyRange, nops);
+  case MINHEAP: return pqT<T, MCmp, galois::MinHeap<T, Cmp>, MINHEAP>(c, rangeInit, keyRange, nops);
+  case TSMINHEAP: return pqT<T, MCmp, galois::ThreadSafeMinHeap<T, Cmp>, TSMINHEAP>(c, rangeInit, keyRange, nops);
+  default: return pqT<T, MCmp, galois::ThreadSafeOrderedSet<T, Cmp>, TSSET>(c, rangeInit, keyRange, nops);
   }
 }
 
 void runPQ(Case& c, Kind kind, const char* name) {
   bool tracked      = c.rng.below(2) == 0;
   bool greater      = c.rng.below(3) == 0;
-  bool rangeInit    = c.rng.below(4) == 0;
-  bool roe          = c.rng.below(32) == 0; // remove() may be called on an empty queue
+  bool rangeInit    = c.rng.below(3) == 0;
   unsigned keyRange = c.rng.pick({4u, 16u, 16u, 1000u});
   unsigned nops     = c.pickOps();
   std::string cfg   = std::string(tracked ? "tracked" : "int") + (greater ? "|greater" : "|less") +
-                    (rangeInit ? "|range" : "") + (roe ? "|roe" : "") + "|k" + std::to_string(keyRange);
+                    (rangeInit ? "|range" : "") + "|k" + std::to_string(keyRange);
   if (!c.begin(name, cfg,
           J().kv("elem", tracked ? "tracked" : "int").kv("cmp", greater ? "greater" : "less")
-              .kv("range_constructed", rangeInit).kv("remove_on_empty_allowed", roe).kv("key_range", keyRange)
-              .kv("nops", nops),
-               roe ? "remove-on-empty" : ""))
+              .kv("range_constructed", rangeInit).kv("key_range", keyRange)
+              .kv("nops", nops)))
     return;
   if (tracked) {
     if (greater)
-      pqKind<Tracked, std::greater<Tracked>, std::greater<int>>(c, kind, rangeInit, roe, keyRange, nops);
+      pqKind<Tracked, std::greater<Tracked>, std::greater<int>>(c, kind, rangeInit, keyRange, nops);
     else
-      pqKind<Tracked, std::less<Tracked>, std::less<int>>(c, kind, rangeInit, roe, keyRange, nops);
+      pqKind<Tracked, std::less<Tracked>, std::less<int>>(c, kind, rangeInit, keyRange, nops);
   } else {
     if (greater)
-      pqKind<int, std::greater<int>, std::greater<int>>(c, kind, rangeInit, roe, keyRange, nops);
+      pqKind<int, std::greater<int>, std::greater<int>>(c, kind, rangeInit, keyRange, nops);
     else
-      pqKind<int, std::less<int>, std::less<int>>(c, kind, rangeInit, roe, keyRange, nops);
+      pqKind<int, std::less<int>, std::less<int>>(c, kind, rangeInit, keyRange, nops);
   }
 }
 
